@@ -20,7 +20,7 @@ RULE = ("geometries in general position (harness-side guard: no distance within 
         "reflections} x noise {0, 0.02, 0.05 A}; reaction triples with reactant / product / TS moved independently.  Differential "
         "oracle: graph(pi.R.x) renamed by pi^-1 has the same bonds and spatially identical descriptors (mirror descriptors under a "
         "reflection); every descriptor names the centre and exactly its bonded neighbours; 288 atoms (48 haloethenes) under six "
-        "reorderings; a caller-supplied switching function (C-Cl cut-off raised, stored in either orientation) on a five-coordinate "
+        "reorderings; a caller-supplied switching function (C-Cl cut-off raised, or set to 0.0, stored in either orientation) on a five-coordinate "
         "carbon under all 720 orders; the caller's array overwritten after Geometry(...) was built.  distinct = perceptions compared")
 ASSUMPTIONS = ["a finite grid of a continuum; VERIF_SEED selects the generic rotation / translation / noise vectors",
                "geometries failing the general-position guard are skipped and counted",
@@ -93,7 +93,7 @@ def items(tier, seed):
                 out.append({"src": name, "sigma": sig, "lo": lo, "hi": min(len(P), lo + step), "tier": tier, "seed": seed})
     for rname in ("conrot_reaction", "disrot_reaction", "fcb", "phosgenation", "sn2"):
         out.append({"reaction": rname, "tier": tier, "seed": seed})
-    for orient in (0, 1):
+    for orient in (0, 1, 2, 3):
         out.append({"custom_cutoff": orient, "tier": tier, "seed": seed})
     out.sort(key=lambda it: (len(sources(tier)[it["src"]][0]) if "src" in it else 99, it.get("lo", 0)))
     return out
@@ -346,11 +346,12 @@ def _custom_cutoff(item, out):
     els = ["C", "H", "H", "H", "Cl", "Cl"]
     xyz = np.array([[0.0, 0.0, 0.0], [1.03, 0.0, 0.18], [-0.515, 0.892, 0.18], [-0.515, -0.892, 0.18], [0.0, 0.0, -1.95], [0.0, 0.0, 2.45]])
     xyz = xyz + G.noise(6, 0.02, seed)
-    key = (6, 17) if item["custom_cutoff"] == 0 else (17, 6)
+    key = (6, 17) if item["custom_cutoff"] % 2 == 0 else (17, 6)
+    zero = item["custom_cutoff"] >= 2          # variants 2, 3: the C-Cl pair is switched off altogether (cut-off 0.0)
 
     def sf():
         f = BondsFromDistance()
-        f.connectivity_cutoff[key] = 2.7
+        f.connectivity_cutoff[key] = 0.0 if zero else 2.7
         return f
 
     def V(clause, what, inp=""):
@@ -359,8 +360,9 @@ def _custom_cutoff(item, out):
 
     g0 = StereoMolGraph.from_geometry(Geometry(els, xyz), sf())
     m0 = U.from_real(g0)
-    if len(m0.nbrs(0)) != 5:
-        V("override-ignored", f"carbon has {len(m0.nbrs(0))} neighbours with the raised cut-off, expected 5")
+    if len(m0.nbrs(0)) != (3 if zero else 5):
+        V("override-ignored", f"carbon has {len(m0.nbrs(0))} neighbours with the {'zero' if zero else 'raised'} cut-off, expected "
+                              f"{3 if zero else 5}")
     gd = StereoMolGraph.from_geometry(Geometry(els, xyz))
     if len(U.from_real(gd).nbrs(0)) != 4:
         V("default-changed", "the default switching function no longer gives four-coordinate carbon (state leaked from the custom one)")
@@ -378,6 +380,8 @@ def _custom_cutoff(item, out):
             except Exception as e:
                 V("raised:" + type(e).__name__, f"from_geometry raised {e!r}", inp=f"{pi}|{label}")
                 continue
+            if zero and any(set(b) & {pi.index(4), pi.index(5)} for b in g1.bonds):
+                V("override-ignored-perm", f"a C-Cl bond appears for atom order {pi} although the pair's cut-off is 0.0", inp=f"{pi}|{label}")
             if {frozenset(b) for b in gm.bonds} != {frozenset(b) for b in g1.bonds}:
                 V("classes-disagree", f"MolGraph and StereoMolGraph.from_geometry give different bonds for atom order {pi}", inp=f"{pi}|{label}")
             m1 = U.from_real(g1).relabel({j: pi[j] for j in range(6)})
